@@ -4,6 +4,7 @@ import (
 	"fmt"
 	"go/ast"
 	"go/token"
+	"go/types"
 	"sort"
 	"strings"
 
@@ -40,11 +41,11 @@ func init() {
 		Clauses: "isTokenTable has 256 entries and is true exactly on the 77 RFC 9110 tchar bytes (table literal evaluated); IsTokenRune evaluated from its syntax for every rune 0..0x10FFFF equals tchar membership; " +
 			"ValidHeaderFieldName has the form [reject len==0] ; for every byte {reject unless tchar} ; accept, with the per-byte step evaluated for all 256 bytes; " +
 			"ValidHeaderFieldValue has the form for every byte {reject iff byte<0x20 and not HTAB, or 0x7f} ; accept, evaluated for all 256 bytes (NUL, CR, LF named separately); " +
-			"isCTL, isLWS, isOWS, lowerASCII evaluated for all 256 bytes against their definitions; tokenEqual rejects unequal lengths, non-ASCII bytes and any position where the lowerASCII images differ, and accepts only after the loop; " +
-			"headerValueContainsToken searches for ',' only, compares trimOWS(element) with the token through tokenEqual for every element, splits exactly at the comma and skips exactly one byte; trimOWS strips only bytes for which isOWS holds, at both ends; " +
+			"isCTL, isLWS, isOWS, lowerASCII evaluated for all 256 bytes against their definitions; tokenEqual rejects unequal lengths, non-ASCII bytes and any position where the lowerASCII images differ (also tabulated: one loop iteration evaluated for every pair of an element of t1 and a byte of t2), and accepts only after the loop; " +
+			"headerValueContainsToken searches for ',' only (strings.IndexByte or strings.Cut), compares trimOWS(element) with the token through tokenEqual for every element (every compared string is the part before the next comma or the comma-free remainder; the loop moves on only after a false comparison; false or the verdict itself is returned only for the last element; true only under a true comparison), splits exactly at the comma and skips exactly one byte; trimOWS strips only bytes for which isOWS holds, at both ends; " +
 			"HeaderValuesContainsToken returns true only under a true headerValueContainsToken and false only after the loop.",
 		NotCovered: "IsTokenRune on negative rune values (byte(r) aliases into the table: not a code point, never produced by ranging over a string); that the loops visit every byte (shape checked: a single top-level loop over the whole parameter advancing by one); " +
-			"termination and the behaviour of strings.IndexByte; ValidHostHeader and PunycodeHostPort.",
+			"termination and the behaviour of strings.IndexByte / strings.Cut; ValidHostHeader and PunycodeHostPort.",
 		Run: c55,
 	})
 }
@@ -321,6 +322,7 @@ func c55(c *Ctx) {
 		ts, cs := LinTerms(l)
 		return len(ts) == 1 && cs[0] == -1 && l.K == 128 && strings.Contains(ts[0], "range($0)")
 	})), retTrue, true)
+	c55TokenEqualStep(c, ev, te)
 	c.Count(te, retTrue, 1, 1)
 	c.GuardP(te, retTrue, AtomLike("range over t1 exhausted", FALS, func(l Lin) bool {
 		ts, _ := LinTerms(l)
@@ -330,8 +332,8 @@ func c55(c *Ctx) {
 	// 7. headerValueContainsToken
 	hv := G + "headerValueContainsToken"
 	teCalls := Calls(te)
-	c.Count(hv, teCalls, 2, -1)
 	if fn := c.MustFn(hv); fn != nil {
+		c55ContainsToken(c, fn, te, G+"trimOWS")
 		// arg0 of tokenEqual IS a trimOWS call (not merely derived from one); arg1 is the token parameter
 		n, bad := 0, ""
 		for _, in := range teCalls.F(c.P, fn) {
@@ -384,7 +386,6 @@ func c55(c *Ctx) {
 		ts, _ := LinTerms(l)
 		return len(ts) == 1 && strings.HasPrefix(ts[0], "tokenEqual(trimOWS(") && strings.HasSuffix(ts[0], ",$1)")
 	}))
-	c.Count(hv, RetConst(0, "false"), 0, 0)
 
 	// trimOWS strips only OWS, from both ends
 	to := G + "trimOWS"
@@ -463,4 +464,334 @@ func frLinSub(a, b Lin) Lin {
 		}
 	}
 	return out
+}
+
+// ---- headerValueContainsToken: the content of the split loop (instead of site counts) ----
+
+// c55Cond is a branch condition value together with the truth value it has on a dominating edge.
+type c55Cond struct {
+	V   ssa.Value
+	Val bool
+}
+
+// c55CondsAt maps the dominating facts of block b (plus, when `to` is not nil, the facts of b's own branch edge to `to`)
+// back to the boolean SSA values they were derived from. && / || joins are looked through by the fact engine.
+func c55CondsAt(fn *ssa.Function, b, to *ssa.BasicBlock) []c55Cond {
+	facts := FactsAt(b)
+	if to != nil && len(b.Instrs) > 0 {
+		if ifi, ok := b.Instrs[len(b.Instrs)-1].(*ssa.If); ok && len(b.Succs) == 2 && b.Succs[0] != b.Succs[1] {
+			facts = append(facts, EdgeFactsOf(ifi, b.Succs[0] == to)...)
+		}
+	}
+	var out []c55Cond
+	for _, blk := range fn.Blocks {
+		for _, in := range blk.Instrs {
+			v, ok := in.(ssa.Value)
+			if !ok || v.Type() == nil {
+				continue
+			}
+			if bt, ok := v.Type().Underlying().(*types.Basic); !ok || bt.Info()&types.IsBoolean == 0 {
+				continue
+			}
+			if u, ok := v.(*ssa.UnOp); ok && u.Op == token.NOT {
+				continue
+			}
+			if _, ok := v.(*ssa.Phi); ok {
+				continue
+			}
+			a := CondAtom(v)
+			for _, f := range facts {
+				if SameAtom(f.Atom, a) {
+					out = append(out, c55Cond{v, true})
+				} else if SameAtom(f.Atom, a.Negate()) {
+					out = append(out, c55Cond{v, false})
+				}
+			}
+		}
+	}
+	return out
+}
+
+func c55SameLeaves(a, b []ssa.Value) bool {
+	sa, sb := map[ssa.Value]bool{}, map[ssa.Value]bool{}
+	for _, v := range a {
+		sa[v] = true
+	}
+	for _, v := range b {
+		sb[v] = true
+	}
+	if len(sa) != len(sb) || len(sa) == 0 {
+		return false
+	}
+	for v := range sa {
+		if !sb[v] {
+			return false
+		}
+	}
+	return true
+}
+
+// c55CutOf: v is result #idx of a strings.Cut(s, ",") call; returns the call.
+func c55CutOf(v ssa.Value, idx int) *ssa.Call {
+	ex, ok := v.(*ssa.Extract)
+	if !ok || ex.Index != idx {
+		return nil
+	}
+	call, ok := ex.Tuple.(*ssa.Call)
+	if !ok || CalleeName(&call.Call) != "strings.Cut" || len(call.Call.Args) != 2 || Term(call.Call.Args[1]) != `","` {
+		return nil
+	}
+	return call
+}
+
+// c55CommaIndex: every value reaching v through phis is strings.IndexByte(s, ','); returns the leaves of the searched strings.
+func c55CommaIndex(v ssa.Value) ([]ssa.Value, bool) {
+	var searched []ssa.Value
+	ls := PhiLeaves(v)
+	if len(ls) == 0 {
+		return nil, false
+	}
+	for _, l := range ls {
+		call, ok := l.(*ssa.Call)
+		if !ok || CalleeName(&call.Call) != "strings.IndexByte" || len(call.Call.Args) != 2 || Term(call.Call.Args[1]) != "44" {
+			return nil, false
+		}
+		searched = append(searched, PhiLeaves(call.Call.Args[0])...)
+	}
+	return searched, true
+}
+
+// c55NoComma: the condition says that the remaining string holds no further ',': `!found` of strings.Cut(s, ","), or
+// IndexByte(s, ',') == -1 (also written < 0). Returns the Cut call (or nil) and the leaves of the string s.
+func c55NoComma(cd c55Cond) (cut *ssa.Call, rest []ssa.Value, ok bool) {
+	if call := c55CutOf(cd.V, 2); call != nil {
+		if cd.Val {
+			return nil, nil, false
+		}
+		return call, PhiLeaves(call.Call.Args[0]), true
+	}
+	b, isBin := cd.V.(*ssa.BinOp)
+	if !isBin {
+		return nil, nil, false
+	}
+	x := b.X
+	if _, isConst := x.(*ssa.Const); isConst {
+		x = b.Y
+	}
+	searched, isIdx := c55CommaIndex(x)
+	if !isIdx {
+		return nil, nil, false
+	}
+	a := CondAtom(cd.V)
+	if !cd.Val {
+		a = a.Negate()
+	}
+	// x == -1  or  x <= -1
+	want := Lin{Coef: map[string]int64{Term(x): 1}, K: 1}
+	if !SameAtom(a, Atom{Kind: EQ, L: want}) && !SameAtom(a, Atom{Kind: LE, L: want}) {
+		return nil, nil, false
+	}
+	return nil, searched, true
+}
+
+// c55Elem describes the string compared by one tokenEqual(trimOWS(e), token) call.
+type c55Elem struct {
+	Call *ssa.Call // the tokenEqual call
+	Kind string    // "cut": elem of strings.Cut(v, ","); "head": v[:comma]; "whole": the remaining string, no comma left
+	Cut  *ssa.Call
+	Why  string // not an element
+}
+
+func c55ContainsToken(c *Ctx, fn *ssa.Function, te, trim string) {
+	hv := "http/httpguts.headerValueContainsToken"
+	elems := map[ssa.Value]*c55Elem{}
+	why := ""
+	for _, in := range Calls(te).F(c.P, fn) {
+		call := in.(*ssa.Call)
+		args := BaselineArgs(&call.Call)
+		e := &c55Elem{Call: call}
+		elems[call] = e
+		tr, ok := args[0].(*ssa.Call)
+		if !ok || CalleeName(&tr.Call) != trim || Term(args[1]) != "$1" {
+			e.Why = "not a comparison of trimOWS(element) with the token"
+			why = e.Why
+			continue
+		}
+		el := tr.Call.Args[0]
+		if cut := c55CutOf(el, 0); cut != nil {
+			e.Kind, e.Cut = "cut", cut
+			continue
+		}
+		if sl, ok := el.(*ssa.Slice); ok && sl.High != nil {
+			lowOK := sl.Low == nil
+			if !lowOK {
+				if lo, ok := (&HxEval{}).Value(sl.Low); ok && lo == 0 {
+					lowOK = true
+				}
+			}
+			searched, isIdx := c55CommaIndex(sl.High)
+			if lowOK && isIdx && c55SameLeaves(searched, PhiLeaves(sl.X)) {
+				e.Kind = "head"
+				continue
+			}
+		}
+		// the whole remaining string: only when it holds no further comma
+		for _, cd := range c55CondsAt(fn, call.Block(), nil) {
+			if cut, rest, ok := c55NoComma(cd); ok && cut == nil && c55SameLeaves(rest, PhiLeaves(el)) {
+				e.Kind = "whole"
+			}
+		}
+		if e.Kind == "" {
+			e.Why = "`" + Term(el) + "` is neither the part before the next ',' nor the remaining string known to hold no ','"
+			why = e.Why
+		}
+	}
+	if len(elems) == 0 {
+		why = "no tokenEqual call"
+	}
+	c.Check(why == "", "split-loop", hv+": every string compared is one comma-separated element (strings.Cut elem, v[:comma], or the remainder without a comma)", fn.Pos(),
+		fmt.Sprintf("%d comparison(s)", len(elems)), why)
+
+	// lastCmp: cmp is the comparison of the LAST element as seen from block b
+	lastCmp := func(cmp ssa.Value, b *ssa.BasicBlock) bool {
+		e := elems[cmp]
+		if e == nil || e.Why != "" {
+			return false
+		}
+		switch e.Kind {
+		case "whole":
+			return true
+		case "cut":
+			for _, cd := range c55CondsAt(fn, b, nil) {
+				if cut, _, ok := c55NoComma(cd); ok && cut == e.Cut {
+					return true
+				}
+			}
+		}
+		return false
+	}
+	// results: true only under a true comparison (GuardP below); anything else is the verdict on the last element
+	why = ""
+	nret := 0
+	for _, in := range Returns().F(c.P, fn) {
+		r := in.(*ssa.Return)
+		if len(r.Results) != 1 {
+			continue
+		}
+		nret++
+		v := r.Results[0]
+		switch t := Term(v); {
+		case t == "true":
+		case elems[v] != nil:
+			if !lastCmp(v, r.Block()) {
+				why = "the result `" + t + "` is returned although further elements may follow"
+			}
+		case t == "false":
+			ok := false
+			for _, cd := range c55CondsAt(fn, r.Block(), nil) {
+				if !cd.Val && elems[cd.V] != nil && lastCmp(cd.V, r.Block()) {
+					ok = true
+				}
+			}
+			if !ok {
+				why = "false is returned without a failed comparison of the last element (no ',' left)"
+			}
+		default:
+			why = "result `" + t + "` is neither true, false nor a tokenEqual verdict"
+		}
+	}
+	c.Check(why == "" && nret > 0, "split-loop", hv+": false (or the verdict of tokenEqual itself) is returned only for the last element", fn.Pos(), fmt.Sprintf("%d return(s)", nret), why)
+
+	// the loop moves on to the rest only after the current element failed the comparison
+	why = ""
+	nback := 0
+	for _, b := range fn.Blocks {
+		for _, h := range b.Succs {
+			if !h.Dominates(b) {
+				continue
+			}
+			nback++
+			ok := false
+			for _, cd := range c55CondsAt(fn, b, h) {
+				if !cd.Val && elems[cd.V] != nil && elems[cd.V].Why == "" && elems[cd.V].Kind != "whole" {
+					ok = true
+				}
+			}
+			if !ok {
+				why = "the loop continues with the rest without a failed comparison of the current element"
+			}
+		}
+	}
+	c.Check(why == "" && nback > 0, "split-loop", hv+": the next element is looked at only after tokenEqual(trimOWS(element), token) was false", fn.Pos(), fmt.Sprintf("%d back edge(s)", nback), why)
+}
+
+// c55TokenEqualStep tabulates one iteration of tokenEqual's loop for every pair (element of t1, byte of t2 at the same
+// position): the iteration must return false exactly when the element is not ASCII or the two ASCII-lower-cased bytes
+// differ, and go on otherwise. This states the comparison itself, whatever expression computes it.
+func c55TokenEqualStep(c *Ctx, ev *Evaluator, te string) {
+	rule := "table-exhaustive"
+	construct := te + " per-position step = reject iff element >= 0x80 or lower(t1[i]) != lower(t2[i])"
+	fn := c.MustFn(te)
+	if fn == nil {
+		return
+	}
+	l, err := ev.FindElemLoop(te)
+	if err != nil {
+		c.Undecided(rule, construct, err.Error())
+		return
+	}
+	_, _, params, err := ev.Decl(te)
+	if err != nil || len(params) != 2 {
+		c.Undecided(rule, construct, "two string parameters expected")
+		return
+	}
+	other := params[0]
+	if other == l.Str {
+		other = params[1]
+	}
+	lower := func(b int64) int64 {
+		if b >= 'A' && b <= 'Z' {
+			return b + 32
+		}
+		return b
+	}
+	elems := []int64{0x100, 0x7ff, 0xfffd, 0x10ffff}
+	if !l.Rune {
+		elems = nil
+	}
+	for b := int64(0); b < 256; b++ {
+		elems = append(elems, b)
+	}
+	n := 0
+	for _, b := range elems {
+		for t := int64(0); t < 256; t++ {
+			env := NewEnv()
+			env.Strs[l.Str] = AbsStr{Len: 1, Elem: b}
+			env.Strs[other] = AbsStr{Len: 1, Elem: t}
+			if l.Elem != nil {
+				env.Vars[l.Elem] = Int(b)
+			}
+			out, v, err := ev.Stmts(l.Pkg, l.Body.List, env)
+			if err != nil {
+				c.Undecided(rule, construct, "loop body not evaluable: "+err.Error())
+				return
+			}
+			switch out {
+			case "return":
+				out = "return " + v.String()
+			case "continue":
+				out = "next"
+			}
+			want := "next"
+			if b >= 0x80 || lower(b) != lower(t) {
+				want = "return false"
+			}
+			if out != want {
+				c.Fail(rule, construct, l.Body.Pos(), fmt.Sprintf("for element 0x%02x (%q) against byte 0x%02x (%q) the loop body does `%s`, the definition requires `%s`", b, rune(b), t, rune(t), out, want))
+				return
+			}
+			n++
+		}
+	}
+	c.OK(rule, construct, fmt.Sprintf("%d pairs evaluated", n))
 }
